@@ -149,6 +149,7 @@ def staleLatest (recv : List Block) (k : Nat) (evs : List Ev) : Bool :=
 def spec (p : Params) (o : Out) : Bool :=
   chainOk p o.chain o.times &&
   (o.subs.zip (List.range o.subs.length)).all (fun (s, i) => recvOk (dueTo p o i) s.recv) &&
+  (o.subs.zip (List.range o.subs.length)).all (fun (s, i) => recvOk (dueTo p o i) s.slow) &&
   (o.subs.zip (List.range o.subs.length)).all (fun (s, i) => histsOk p (dueTo p o i) s.hists) &&
   transmitsOk p o &&
   o.subs.all (subEventsOk p o.chain)
@@ -161,6 +162,8 @@ def explain (p : Params) (o : Out) : String :=
     "delivery: a subscriber did not receive every block broadcast while it was attached exactly once"
   else if subs.any (fun (s, i) => !s.recv.all ((dueTo p o i).contains ·)) then
     "delivery: same block number with different hash or content, or a block from outside the subscription"
+  else if subs.any (fun (s, i) => !recvOk (dueTo p o i) s.slow) then
+    "delivery: a consumer that had stopped reading for a while did not get every block broadcast while attached exactly once"
   else if o.subs.any (fun s => s.hists.any fun h => !descStrict (h.map (·.number))) then
     "history: block numbers not strictly descending (newest first)"
   else if o.subs.any (fun s => s.hists.any fun h => decide (h.length > p.depth)) then
